@@ -116,7 +116,7 @@ theorem wire_is_schema_name (c : Codegen.Ctx) (e : StoredEnum) :
 
 /-- the emitted tables are well-formed whenever value names and their identifiers are distinct -/
 theorem codegen_tables_wf (c : Codegen.Ctx) (e : StoredEnum) (hv : e.variants.Nodup)
-    (hi : (e.variants.map (fun v => keywordReplace (c.o.normalization.enumVariant c.cs v))).Nodup) :
+    (hi : (e.variants.map (fun v => enumVariantIdent c.o.normalization c.cs v)).Nodup) :
     ∃ name derives path idents ser de, Codegen.enumItem c e = .gqlEnum name derives path idents ser de ∧
       tablesWf idents ser de = true := by
   refine ⟨_, _, _, _, _, _, rfl, ?_⟩
@@ -126,6 +126,38 @@ theorem codegen_tables_wf (c : Codegen.Ctx) (e : StoredEnum) (hv : e.variants.No
   · apply nodup_iff.mpr; simpa [List.map_map, Function.comp_def] using hi
   · simp [List.map_map, Function.comp_def]
   · simp [List.map_map, Function.comp_def]
+
+/-- no schema value gets the identifier of the catch-all variant `Other(String)`: for ANY value name, case
+    function and normalization (a value that would be called `Other` — `Other` itself, `OTHER` / `other` under
+    `normalization = rust` — is escaped to `Other_`) -/
+theorem ident_ne_other (n : Normalization) (cs : CaseFns) (v : String) : enumVariantIdent n cs v ≠ "Other" := by
+  unfold enumVariantIdent
+  simp only
+  split
+  · decide
+  · rename_i h; simpa using h
+
+/-- so the identifiers the generated enum declares — the schema values' and `Other` — are pairwise distinct
+    exactly when the schema values' identifiers are -/
+theorem declared_idents_nodup (c : Codegen.Ctx) (e : StoredEnum)
+    (hi : (e.variants.map (fun v => enumVariantIdent c.o.normalization c.cs v)).Nodup) :
+    ∃ name derives path idents ser de, Codegen.enumItem c e = .gqlEnum name derives path idents ser de ∧
+      (idents ++ ["Other"]).Nodup := by
+  refine ⟨_, _, _, _, _, _, rfl, ?_⟩
+  rw [List.nodup_append]
+  refine ⟨hi, by simp, ?_⟩
+  intro a ha b hb
+  simp only [List.mem_singleton] at hb
+  subst hb
+  obtain ⟨v, -, rfl⟩ := List.mem_map.mp ha
+  exact ident_ne_other _ _ v
+
+/-- the escape is the only change: any other identifier is `keyword_replace (normalization value)` -/
+theorem ident_eq_unless_other (n : Normalization) (cs : CaseFns) (v : String)
+    (h : keywordReplace (n.enumVariant cs v) ≠ "Other") :
+    enumVariantIdent n cs v = keywordReplace (n.enumVariant cs v) := by
+  unfold enumVariantIdent
+  simp [h]
 
 /-- the serde model reads a string enum exactly as `deE` -/
 theorem serde_model_enum (env : Env) (b : Bool) (fuel : Nat) (p name : String) (d : List String) (sp : String)
